@@ -29,8 +29,8 @@ ASSUMPTIONS = ["driver sets are computed by vsim's elaborator from the emitted t
 REQUIRE = {'quick': {'must_reject_rejected': 300, 'accepted_checked': 100},
            'thorough': {'must_reject_rejected': 3000, 'accepted_checked': 500}}
 
-SITES = ['A', 'B', 'C', 'alwaysA', 'inst1', 'inst1b', 'inst2']
-SHAPES = ['whole', 'slice', 'elem', 'rtelem', 'view', 'helper', 'push', 'next']
+SITES = ['A', 'B', 'C', 'alwaysA', 'inst1', 'inst1b', 'inst2', 'instR']
+SHAPES = ['whole', 'slice', 'elem', 'rtelem', 'view', 'helper', 'push', 'next', 'inline', 'inline_nested']
 TARGETS = ['outport', 'signal', 'inport', 'variable', 'temp']
 
 
@@ -63,6 +63,7 @@ def gen_cases(tier, seed):
         # an extra observer in context A: an always *expression* with a run-time indexed read combined with another operand
         # (its index intermediate must be turned into a signal together with the hoisted statement)
         c['rtidx_always'] = c['style']['A'] == 'std' and rnd.random() < 0.3
+        c['always_expr_reader'] = c['style']['A'] == 'std' and c['tgt'] in ('signal', 'outport', 'variable') and rnd.random() < 0.15
     if tier == 'quick':
         rnd.shuffle(cases)
         cases = cases[:2400]
@@ -73,14 +74,22 @@ _n = [0]
 
 
 def applicable(tgt, site, shape):
+    if site == 'instR':
+        # output `v` of a second entity class that is also called Leaf but has the opposite port directions (instantiated after
+        # a Leaf of the first kind)
+        return tgt in ('outport', 'signal', 'inport') and shape == 'whole'
     if site in ('inst1', 'inst1b', 'inst2'):
         # instance outputs are connected to whole objects, slices or elements of signals
         return tgt in ('outport', 'signal', 'inport') and shape in ('whole', 'slice', 'elem')
+    if tgt in ('variable', 'temp') and shape in ('inline', 'inline_nested'):
+        return False
     if tgt in ('variable', 'temp'):
         if site in ('C', 'alwaysA'):
             return shape == 'whole'       # any use of a variable in a concurrent context
         return shape in ('whole', 'slice', 'elem', 'rtelem', 'helper') if tgt == 'variable' else shape == 'whole'
     if shape == 'push' and site in ('C', 'alwaysA'):
+        return False
+    if shape in ('inline', 'inline_nested') and site == 'alwaysA':
         return False
     return True
 
@@ -98,7 +107,12 @@ def build(case):
     arch = []
     insts = {}
     helper_needed = False
+    inline_needed = False
+    rev = 0
     for s, sh in writers:
+        if s == 'instR':
+            rev += 1
+            continue
         if s.startswith('inst'):
             actual = {'whole': T, 'slice': f"{T}[1:0]", 'elem': f"{T}[2]"}[sh]
             key = 'inst2' if s == 'inst2' else 'inst1'
@@ -129,6 +143,13 @@ def build(case):
         elif sh == 'helper':
             helper_needed = True
             st = f"drive({T}, self.x)" if tgt != 'variable' else f"drivev({T}, self.x)"
+        elif sh == 'inline':
+            # inline VHDL: objects referenced without `!r` are written
+            st = 'f"{vhdl:{' + T + '} <= {self.x!r};}"'
+        elif sh == 'inline_nested':
+            # an inline statement produced by a helper and expanded inside another inline fragment
+            inline_needed = True
+            st = 'f"{vhdl:{inl_drive(' + T + ', self.x)}}"'
         elif sh == 'push':
             st = f"{T} ^= self.x"
         else:
@@ -145,17 +166,27 @@ def build(case):
         lines['A'].append("pk = cohdl.always(self.x[self.d] & self.a)")
         lines['A'].append("self.obs3 <<= pk")
     readers = list(case['r'])
+    if case.get('always_expr_reader') and tgt in ('signal', 'outport', 'variable'):
+        # an `always` expression of context A reads the target: emitted as a concurrent statement outside the process
+        lines['A'].append(f"pr = cohdl.always({T}[0] & self.a)")
+        lines['A'].append("self.obs3 <<= pr")
     for r in readers:
         if tgt == 'temp':
             continue
         lines[r].append(f"self.obs{'2' if r == 'C' else ''} <<= {T}" if tgt != 'variable' or r != 'C' else f"self.obs2 <<= {T}")
-    L = [pg.HEADER,
+    L = [pg.HEADER + "from cohdl import vhdl\n",
          "class Leaf(Entity):", "    i = Port.input(Bit)", "    v = Port.input(BitVector[4])",
          "    o1 = Port.output(Bit)", "    o2 = Port.output(Bit)", "    w1 = Port.output(BitVector[4])", "    w2 = Port.output(BitVector[4])",
          "    s1 = Port.output(BitVector[2])", "    s2 = Port.output(BitVector[2])",
          "    def architecture(self):", "        @std.concurrent", "        def logic():",
          "            self.o1 <<= self.i", "            self.o2 <<= ~self.i", "            self.w1 <<= self.v", "            self.w2 <<= ~self.v",
          "            self.s1 <<= self.v[1:0]", "            self.s2 <<= self.v[3:2]", "",
+         "def make_rev():", "    class Leaf(Entity):", "        i = Port.input(Bit)", "        w1 = Port.input(BitVector[4])",
+         "        v = Port.output(BitVector[4])", "        o1 = Port.output(Bit)", "        o2 = Port.output(Bit)", "        w2 = Port.output(BitVector[4])",
+         "        s1 = Port.output(BitVector[2])", "        s2 = Port.output(BitVector[2])",
+         "        def architecture(self):", "            @std.concurrent", "            def logic():",
+         "                self.v <<= ~self.w1", "                self.o1 <<= self.i", "                self.o2 <<= ~self.i", "                self.w2 <<= self.w1",
+         "                self.s1 <<= self.w1[1:0]", "                self.s2 <<= self.w1[3:2]", "    return Leaf", "", "LeafR = make_rev()", "",
          f"class {cname}(Entity):", "    clk = Port.input(Bit)", "    a = Port.input(Bit)", "    d = Port.input(Unsigned[2])",
          "    x = Port.input(BitVector[4])", "    obs = Port.output(BitVector[4], default=Null)", "    obs2 = Port.output(BitVector[4], default=Null)",
          "    obs3 = Port.output(Bit, default=Null)"]
@@ -174,6 +205,16 @@ def build(case):
                 's1': 'Signal[BitVector[2]]()', 's2': 'Signal[BitVector[2]]()'}
         conn.update(ports)
         L.append(f"        Leaf(i=self.a, v=self.x, " + ', '.join(f"{p}={a}" for p, a in conn.items()) + ")")
+    if rev:
+        if not insts:
+            L.append("        Leaf(i=self.a, v=self.x, o1=Signal[Bit](), o2=Signal[Bit](), w1=Signal[BitVector[4]](), w2=Signal[BitVector[4]](), "
+                     "s1=Signal[BitVector[2]](), s2=Signal[BitVector[2]]())")
+        for k_ in range(rev):
+            L.append(f"        tie{k_} = Signal[BitVector[4]]('0101', name='tie{k_}')")
+            L.append(f"        LeafR(i=self.a, w1=tie{k_}, v={T}, o1=Signal[Bit](), o2=Signal[Bit](), w2=Signal[BitVector[4]](), "
+                     "s1=Signal[BitVector[2]](), s2=Signal[BitVector[2]]())")
+    if inline_needed:
+        L += ["        def inl_drive(tg, val):", '            return f"{vhdl:{tg} <= {val!r};}"']
     if helper_needed:
         L += ["        def drive(tg, val):", "            tg <<= val", "        def drivev(tg, val):", "            tg @= val"]
     nl = "            nonlocal t" if tgt in ('signal', 'variable') else None
@@ -225,11 +266,13 @@ def expected(case):
     """must-reject reason or None"""
     tgt = case['tgt']
     wsites = [w[0] for w in case['w']]
-    ctx_of = {'A': 'A', 'B': 'B', 'C': 'C', 'alwaysA': 'alwaysA', 'inst1': 'inst1', 'inst1b': 'inst1b', 'inst2': 'inst2'}
+    ctx_of = {'A': 'A', 'B': 'B', 'C': 'C', 'alwaysA': 'alwaysA', 'inst1': 'inst1', 'inst1b': 'inst1b', 'inst2': 'inst2', 'instR': 'instR'}
     if tgt == 'inport':
         return "input port written"
     if tgt in ('variable', 'temp'):
         used = set(ctx_of[s] for s in wsites) | set(case['r'] if tgt == 'variable' else [])
+        if tgt == 'variable' and case.get('always_expr_reader'):
+            return "variable read by an always expression (emitted outside the process)"
         # the always block belongs to context A in the source, but it is emitted outside the process
         if len(used) > 1:
             return f"{tgt} used by more than one context"
@@ -250,7 +293,7 @@ def run_case(case):
         return result(cnt={'not_applicable_combination': 1})
     src, cname = b
     why = expected(case)
-    key = digest(case['tgt'], sorted(map(tuple, case['w'])), sorted(case['r']))
+    key = digest(case['tgt'], sorted(map(tuple, case['w'])), sorted(case['r']), bool(case.get('always_expr_reader')))
     mod = load_source(src, 'c07')
     try:
         try:
@@ -275,6 +318,12 @@ def run_case(case):
         # (an identifier that is not visible where it is used is a process variable referenced from outside its process)
         drv = [i for i in sim.issues if i[0] in ('multiple-drivers', 'variable-outside-its-process', 'variable-outside-process',
                                                  'write-in-port', 'undeclared-identifier')]
+        if any(w[0] == 'instR' for w in case['w']):
+            # two entity classes with one name are emitted as two design units with the same name (the recorded C06 finding
+            # "names are unique only inside their own entity"): instances cannot be bound reliably in the emitted text, so only
+            # the compile-time verdict is judged for these cases
+            drv = []
+            cnt['same_named_entity_classes'] += 1
         for kind, det in sim.issues:
             cnt['vcheck:' + kind] += 1
         klass = '+'.join(sorted(set(w[0] for w in case['w'])))
